@@ -11,6 +11,24 @@ MH = "ASAM::CMP::MessageHeader"
 CH = "ASAM::CMP::CmpHeader"
 
 
+def implied_atoms(val):
+    """Per true-return of a bool function: the atoms that hold when it returns true
+    (must-facts on the way to the return + the conjuncts of the returned expression)."""
+    mf = MustFacts(val)
+    out = []
+    for r in val.returns():
+        e = r.get("e")
+        if const_value(e) == 0:
+            continue
+        atoms = list(mf.at(r))
+        if const_value(e) != 1:
+            atoms += facts.conjuncts(e, True)
+        out.append(atoms)
+    if not out:
+        raise Broken("%s never returns true" % val.name)
+    return out
+
+
 def getters_in(fn, e, prefix):
     _, calls = depends(fn, e)
     return {c for c in calls if c.startswith(prefix + "::get")}
@@ -195,19 +213,20 @@ def run(ctx):
             res.check(got == want and ret.bits[0][0] == "or", "C04-R3", "error-bits:CAN", he.loc, "hasError() = OR of flag bits 0..9 and the error position",
                       "hasError() tests wire bits %s, protocol error bits are %s" % (sorted(got ^ want)[:8], "flags 0..9 + error position"))
             val = fb.fn(cls + "::isValidPayload")
-            uses = any(a[0] == "truth" and a[2] is False and a[3].get("k") == "call" and callee_name(a[3]) == hrec + "::hasError"
-                       for r2 in val.returns() for a in facts.conjuncts(r2["e"], True))
+            uses = all(any(a[0] == "truth" and a[2] is False and a[3].get("k") == "call" and callee_name(a[3]) == hrec + "::hasError" for a in atoms)
+                       for atoms in implied_atoms(val))
             res.check(uses, "C04-R3", "error-bits:CAN:validator", val.loc, "validator requires !hasError()", "CAN validator does not reject frames with bus-error flags")
         else:
             val = fb.fn(cls + "::isValidPayload")
             mask = sum(1 << b for b in eb["flags"])
-            ok = False
-            for r2 in val.returns():
-                for a in facts.conjuncts(r2["e"], True):
+            def tests_mask(atoms):
+                for a in atoms:
                     if a[0] == "cmp" and a[2] == "==" and const_value(a[5]) == 0:
                         x = strip_all_casts(a[4])
                         if x.get("k") == "bin" and x.get("op") == "&" and const_value(x["r"]) == mask and (callee_name(strip_all_casts(x["l"])) or "").endswith("::getFlags"):
-                            ok = True
+                            return True
+                return False
+            ok = all(tests_mask(atoms) for atoms in implied_atoms(val))
             res.check(ok, "C04-R3", "error-bits:Ethernet", val.loc, "validator requires (getFlags() & 0x%X) == 0" % mask, "Ethernet validator does not test exactly the error bits 0x%X" % mask)
     # ---- R5 positions
     obs, _ = accessors.analyse(fb, ctx.spec("layout.json"))
